@@ -346,12 +346,35 @@ def pieceJson : Piece → Json
   | .text c => Json.arr #[jstr "t", jstr (String.singleton c)]
   | .raise => Json.arr #[jstr "raise"]
   | .hole p sl fm => Json.arr #[jstr "h", jstr (String.ofList p),
-      jopt (jarr (fun (x : Option Nat × Option Nat) => Json.arr #[jopt jnat x.1, jopt jnat x.2])) sl,
+      -- index n -> [n, n]; range a:b -> [a, b]; the range n:n -> [n, n, "range"] (kept apart from the index)
+      jopt (jarr (fun (x : SliceEntry) => match x with
+        | .idx n => Json.arr #[jnat n, jnat n]
+        | .range a b => if a = b ∧ a.isSome then Json.arr #[jopt jnat a, jopt jnat b, jstr "range"]
+                        else Json.arr #[jopt jnat a, jopt jnat b])) sl,
       jopt (fun f => jstr (String.ofList f)) fm]
 
 def tplHandle (j : Json) : Except String Json := do
   let t ← (← field j "text").getStr?
   pure (jarr pieceJson (scanTemplate (t.length + 1) t.toList))
+
+/-- The produced text: `outs[i]` is what Python gives for the i-th hole the model's scan finds
+    (characters of `format(value, fmt)` / `str(value)`, `null` = raises); the table keyed by
+    (reference, slice, format) built from it is the parameter `hole` of `solveTemplate`. -/
+def tploHandle (j : Json) : Except String Json := do
+  let t ← (← field j "text").getStr?
+  let outs ← (← getList (← field j "outs")).mapM (fun o =>
+    match o with
+    | .null => pure (none : Option (List Char))
+    | o => do pure (some (← o.getStr?).toList))
+  let keys := (scanTemplate (t.length + 1) t.toList).filterMap (fun p =>
+    match p with
+    | .hole p sl fm => some (p, sl, fm)
+    | _ => none)
+  let tbl := keys.zip outs
+  let hole : HoleFn := fun p sl fm => (tbl.lookup (p, sl, fm)).join
+  pure (match solveTemplate hole t.toList with
+    | some s => Json.mkObj [("out", jstr (String.ofList s))]
+    | none => Json.mkObj [("out", Json.null)])
 
 def handle (j : Json) : Except String Json := do
   let k ← (← field j "k").getStr?
@@ -359,6 +382,7 @@ def handle (j : Json) : Except String Json := do
   | "num" => numHandle j
   | "log" => logHandle j
   | "tpl" => tplHandle j
+  | "tplo" => tploHandle j
   | _ => throw s!"C18: unknown kind {k}"
 
 end SciVerif.C18.Drive
